@@ -7,3 +7,4 @@ open GoRedis
 #print axioms C19_tls_fault_leaves_nothing
 #print axioms C19_churn_baseline
 #print axioms C19_source_releases_deferred
+#print axioms C19_source_conn_loop_is_the_modelled_one
